@@ -67,6 +67,19 @@ pub struct Profile {
     /// member types wherever a builtin would have been chosen (C07 profile)
     #[serde(default)]
     pub restrict_bias: bool,
+    /// document order is any permutation of the components (Lehmer code of `perm`) instead of a
+    /// rotation / reversal of the construction order
+    #[serde(default)]
+    pub full_perm: bool,
+    /// elements named like their type, refs to exactly those elements and extensions of exactly
+    /// those types are preferred: references that differ in nothing but the component kind
+    #[serde(default)]
+    pub kind_mix: bool,
+    /// `<xs:attribute ref="xml:lang"/>` members (structure checks only: the generated code
+    /// writes the attribute as `lang`, see DESIGN.md)
+    /// 0 = none, 1 = with any use=, 2 = never required (wire checks: no value is ever generated for it)
+    #[serde(default)]
+    pub xml_lang: u8,
 }
 
 fn yes() -> bool {
@@ -108,6 +121,9 @@ impl Profile {
             colliding_abbrev: false,
             derived_simple_foreign_use: true,
             restrict_bias: false,
+            full_perm: true,
+            kind_mix: false,
+            xml_lang: 0,
         }
     }
     /// switch a feature off by its tag name; returns false for an unknown tag
@@ -306,7 +322,7 @@ fn arb_comp() -> impl Strategy<Value = RawComp> {
 }
 
 fn arb_file() -> impl Strategy<Value = RawFile> {
-    (proptest::collection::vec(any::<u16>(), 0..3), proptest::collection::vec(arb_comp(), 1..7), any::<u16>(), any::<u8>(), any::<u8>(), any::<bool>())
+    (proptest::collection::vec(any::<u16>(), 0..3), proptest::collection::vec(arb_comp(), 1..9), any::<u16>(), any::<u8>(), any::<u8>(), any::<bool>())
         .prop_map(|(import_sel, comps, perm, own_prefix, imp_prefix, xs)| RawFile { import_sel, comps, perm, own_prefix, imp_prefix, xs })
 }
 
@@ -441,6 +457,12 @@ impl B<'_> {
         }
         Name::canonical(&["fallback", "member"], Style::LowerCamel)
     }
+    /// is there a component of another kind (element vs type) with the same name in the same file?
+    fn has_kind_twin(&self, q: QRef) -> bool {
+        let me = &self.files[q.file].comps[q.comp];
+        let is_elem = |c: &Comp| matches!(c.kind, CompKind::ElementTyped(_) | CompKind::ElementAnon(_));
+        self.files[q.file].comps.iter().enumerate().any(|(i, c)| i != q.comp && c.name.xml() == me.name.xml() && is_elem(c) != is_elem(me))
+    }
     /// slots visible from `file` with rank below `limit`, of the given tags
     fn candidates(&self, file: usize, limit: usize, tags: &[u8], own_only: bool) -> Vec<QRef> {
         self.slots[..limit.min(self.slots.len())]
@@ -521,9 +543,15 @@ impl B<'_> {
                     return None;
                 }
                 let tags: &[u8] = if self.p.ref_to_typed_elem { &[2, 3] } else { &[2] };
-                let c = self.candidates(file, limit, tags, false);
+                let mut c = self.candidates(file, limit, tags, false);
                 if c.is_empty() {
                     return None;
+                }
+                if self.p.kind_mix {
+                    let twins: Vec<QRef> = c.iter().copied().filter(|q| self.has_kind_twin(*q)).collect();
+                    if !twins.is_empty() {
+                        c = twins;
+                    }
                 }
                 let q = c[idx(*sel, c.len())];
                 let snake = self.files[q.file].comps[q.comp].name.snake();
@@ -578,10 +606,18 @@ impl B<'_> {
     fn body(&mut self, file: usize, limit: usize, b: &RawBody, rank: usize) -> Body {
         let mut used: BTreeSet<String> = BTreeSet::new();
         let mut base = None;
-        let base_sel = b.base.or(if self.p.ext_bias && rank % 4 != 0 { Some((rank as u16).wrapping_mul(7919)) } else { None });
-        if let Some(sel) = base_sel {
+        let base_sel = b.base.or(if (self.p.ext_bias && rank % 4 != 0) || (self.p.kind_mix && rank % 2 == 0) { Some((rank as u16).wrapping_mul(7919)) } else { None });
+        // kind mix: odd ranks refer to the element of an element/type pair and extend nothing
+        let ref_only = self.p.kind_mix && self.p.elem_ref && self.p.ref_to_typed_elem && rank % 2 == 1 && self.candidates(file, limit, &[2, 3], false).into_iter().any(|q| self.has_kind_twin(q));
+        if let Some(sel) = base_sel.filter(|_| !ref_only) {
             if self.p.extension {
-                let c = self.candidates(file, limit, &[1], false);
+                let mut c = self.candidates(file, limit, &[1], false);
+                if self.p.kind_mix {
+                    let twins: Vec<QRef> = c.iter().copied().filter(|q| self.has_kind_twin(*q)).collect();
+                    if !twins.is_empty() {
+                        c = twins;
+                    }
+                }
                 if !c.is_empty() {
                     let q = c[idx(sel, c.len())];
                     // inherited member names are taken
@@ -603,6 +639,18 @@ impl B<'_> {
         }
         let mut salt = rank * 5;
         let mut parts: Vec<Particle> = b.parts.iter().filter_map(|p| self.particle(file, limit, p, &mut used, &mut salt, 0, false)).collect();
+        if self.p.kind_mix && self.p.elem_ref && self.p.ref_to_typed_elem && rank % 2 == 1 {
+            // one more member: a reference to an element that shares its name with a type
+            let c: Vec<QRef> = self.candidates(file, limit, &[2, 3], false).into_iter().filter(|q| self.has_kind_twin(*q)).collect();
+            let has = parts.iter().any(|p| matches!(p, Particle::Ref { to, .. } if c.contains(to)));
+            if !c.is_empty() && !has {
+                let q = c[rank % c.len()];
+                if used.insert(self.files[q.file].comps[q.comp].name.snake()) {
+                    self.stats.feat("particle.ref");
+                    parts.push(Particle::Ref { to: q, occ: if rank % 2 == 0 { Occ { min: Some(0), max: MaxOcc::Unbounded } } else { Occ::ONE } });
+                }
+            }
+        }
         if base.is_some() && rank % 3 == 0 && self.p.choice {
             // keep only a choice, if there is one: the extension's content is then a single choice
             if let Some(c) = parts.iter().find(|p| matches!(p, Particle::Choice { .. })).cloned() {
@@ -611,6 +659,10 @@ impl B<'_> {
         }
         let mut attrs = vec![];
         if self.p.attributes && (base.is_none() || self.p.ext_attrs) {
+            if self.p.xml_lang != 0 && rank % 3 == 0 && !self.taken.contains("lang") && used.insert("lang".to_string()) {
+                self.stats.feat("attribute.ref-xml-lang");
+                attrs.push(Attr { name: Name::raw("lang"), ty: TypeRef::Builtin("string".into()), use_: [AttrUse::Absent, AttrUse::Optional, AttrUse::Required][rank / 3 % if self.p.xml_lang == 2 { 2 } else { 3 }], xml_lang: true });
+            }
             for a in &b.attrs {
                 salt += 1;
                 let name = self.member_name(&a.name, &mut used, salt);
@@ -618,7 +670,7 @@ impl B<'_> {
                     TypeRef::Builtin(b) => TypeRef::Builtin(b),
                     t => t,
                 };
-                attrs.push(Attr { name, ty, use_: [AttrUse::Absent, AttrUse::Optional, AttrUse::Required][a.use_ as usize % 3] });
+                attrs.push(Attr { name, ty, use_: [AttrUse::Absent, AttrUse::Optional, AttrUse::Required][a.use_ as usize % 3], xml_lang: false });
                 self.stats.feat("attribute");
                 if base.is_some() {
                     self.stats.feat("extension.attribute");
@@ -888,7 +940,7 @@ pub fn build(raw: &RawModel, p: &Profile) -> (Model, BuildStats) {
                     let t = c[idx(sel, c.len())];
                     let type_name = b.files[t.file].comps[t.comp].name.clone();
                     let already = b.files[fi].comps.iter().any(|c| matches!(c.kind, CompKind::ElementTyped(_) | CompKind::ElementAnon(_)) && c.name.pascal() == type_name.pascal());
-                    let nm = if *same_name && p.same_name_elem_and_type && t.file == fi && !already {
+                    let nm = if (*same_name || p.kind_mix) && p.same_name_elem_and_type && t.file == fi && !already {
                         b.stats.feat("element.same-name-as-type");
                         b.files[t.file].comps[t.comp].name.clone()
                     } else {
@@ -915,9 +967,25 @@ pub fn build(raw: &RawModel, p: &Profile) -> (Model, BuildStats) {
             let rot = raw.files[fi].perm as usize % k;
             let rev = raw.files[fi].perm & 0x8000 != 0;
             let mut order: Vec<usize> = (0..k).collect();
-            order.rotate_left(rot);
-            if rev {
+            if p.kind_mix && raw.files[fi].perm % 3 == 0 {
+                // everything is a forward reference
                 order.reverse();
+            } else if p.full_perm && k <= 8 {
+                // Lehmer code: perm 0 is the construction order
+                let fact: usize = (1..=k).product();
+                let mut code = idx(raw.files[fi].perm, fact);
+                let mut pool: Vec<usize> = (0..k).collect();
+                order.clear();
+                for i in (1..=k).rev() {
+                    let f: usize = (1..i).product();
+                    order.push(pool.remove(code / f));
+                    code %= f;
+                }
+            } else {
+                order.rotate_left(rot);
+                if rev {
+                    order.reverse();
+                }
             }
             if order != (0..k).collect::<Vec<_>>() {
                 b.stats.feat("order.forward-references");
@@ -930,6 +998,7 @@ pub fn build(raw: &RawModel, p: &Profile) -> (Model, BuildStats) {
     if p.collide {
         collide(&mut m, raw, &mut b.stats);
     }
+    kind_order_features(&m, &mut b.stats);
     // WSDL
     let want_wsdl = match p.wsdl {
         0 => false,
@@ -1266,10 +1335,63 @@ fn collide(m: &mut Model, raw: &RawModel, stats: &mut BuildStats) {
                         continue;
                     }
                 }
-                if let Some(a) = b.attrs.first_mut() {
+                if let Some(a) = b.attrs.iter_mut().find(|a| !a.xml_lang) {
                     if !taken.contains(&to.snake()) {
                         a.name = to.clone();
                         stats.feat("collision.attribute-named-like-global-component");
+                    }
+                }
+            }
+        }
+    }
+}
+
+/// order-and-kind shapes worth counting: an element and a type of one name, where the element is
+/// referenced (ref=) and the type extended (base=) before either is declared
+fn kind_order_features(m: &Model, stats: &mut BuildStats) {
+    fn refs_of(ps: &[Particle], out: &mut Vec<QRef>) {
+        for p in ps {
+            match p {
+                Particle::Ref { to, .. } => out.push(*to),
+                Particle::Seq(s) => refs_of(&s.parts, out),
+                Particle::Choice { branches, .. } => refs_of(branches, out),
+                Particle::Elem { .. } => {}
+            }
+        }
+    }
+    for (fi, f) in m.files.iter().enumerate() {
+        let mut first_ref: std::collections::BTreeMap<usize, usize> = Default::default();
+        let mut first_ext: std::collections::BTreeMap<usize, usize> = Default::default();
+        for (ci, c) in f.comps.iter().enumerate() {
+            if let CompKind::Complex(b) | CompKind::ElementAnon(b) = &c.kind {
+                let mut r = vec![];
+                if let Some(s) = &b.seq {
+                    refs_of(&s.parts, &mut r);
+                }
+                for q in r.into_iter().filter(|q| q.file == fi) {
+                    first_ref.entry(q.comp).or_insert(ci);
+                }
+                if let Some(q) = b.base.filter(|q| q.file == fi) {
+                    first_ext.entry(q.comp).or_insert(ci);
+                }
+            }
+        }
+        for (ei, e) in f.comps.iter().enumerate() {
+            if !matches!(e.kind, CompKind::ElementTyped(_) | CompKind::ElementAnon(_)) {
+                continue;
+            }
+            for (ti, t) in f.comps.iter().enumerate() {
+                if !matches!(t.kind, CompKind::Complex(_)) || t.name.xml() != e.name.xml() {
+                    continue;
+                }
+                stats.feat("kind-twin");
+                if let (Some(r), Some(x)) = (first_ref.get(&ei), first_ext.get(&ti)) {
+                    stats.feat("kind-twin.referenced-and-extended");
+                    if *r < ei && *x < ti {
+                        stats.feat("kind-twin.both-forward");
+                        if r < x {
+                            stats.feat("kind-twin.ref-then-extension-then-declarations");
+                        }
                     }
                 }
             }
